@@ -2,7 +2,8 @@
    Only statements closed by `exact`; proofs live in Avoid/SegPoly.v, Avoid/Blocking.v (about the cpp2v-generated
    predicates of Gen/Geometry.v) and Avoid/RefRouter.v. *)
 From Adapt Require Import Num.Qaux Geom.GeomSpec Gen.Geometry Avoid.SegPolyModel Avoid.SegPoly
-     Avoid.CertDijkstraModel Avoid.RefRouterModel Avoid.RefRouter Avoid.Blocking.
+     Avoid.CertDijkstraModel Avoid.RefRouterModel Avoid.RefRouter Avoid.RefRouterTotal Avoid.Blocking
+     Avoid.BlockingComplete Avoid.BlockingSound.
 Local Open Scope Q_scope.
 
 (* the exact segment / convex polygon decider *)
@@ -69,3 +70,89 @@ Theorem C03_blocked_refuted :
                   blocked_by_shape e1 e2 P = false /\ blocked_by_new_shape e1 e2 P = false.
 Proof. exact blocked_refuted. Qed.
 Print Assumptions C03_blocked_refuted.
+
+(* ---- SearchFail no longer excluded: the reference router returns a valid route, or NoPath exactly when the
+        visibility graph has no path from s to d *)
+Theorem C03_route_is_graph_path_total shapes s d :
+  (exists pts c, route_plain shapes s d = Route pts c /\
+     (2 <= length pts)%nat /\ hd s pts = s /\ last pts d = d /\
+     (forall a b, In (a, b) (consecutive pts) -> forall P, In P (obstacles shapes s d) -> segment_avoids P a b) /\
+     route_ok shapes s d pts = true) \/
+  (route_plain shapes s d = NoPath /\
+     forall q, vis_path shapes s d (0%nat :: q) -> last (0%nat :: q) 0%nat <> 1%nat).
+Proof. exact (route_is_graph_path_total shapes s d). Qed.
+Print Assumptions C03_route_is_graph_path_total.
+
+(* ---- completeness of the blocking test without the classifier hypothesis (Avoid/BlockingComplete.v).
+   The classifier `degenerate_chord` is exactly the declarative family; P is an arbitrary vertex list here. *)
+Theorem C03_degenerate_chord_exact P a b :
+  degenerate_chord P a b = true <->
+  passes_through_interior P a b /\ ~ strictly_inside_all_edges P a /\ ~ strictly_inside_all_edges P b /\
+  no_edge_interior_hit P a b.
+Proof. exact (degenerate_chord_exact P a b). Qed.
+Print Assumptions C03_degenerate_chord_exact.
+
+Theorem C03_blocked_complete e1 e2 P :
+  passes_through_interior P e1 e2 ->
+  (exists t e, 0 < t /\ t < 1 /\ In e (poly_edges P) /\ strictly_between (fst e) (snd e) (lerp e1 e2 t)) ->
+  blocked_by_shape e1 e2 P = true /\ blocked_by_new_shape e1 e2 P = true.
+Proof. exact (blocked_complete e1 e2 P). Qed.
+Print Assumptions C03_blocked_complete.
+
+(* strictly convex polygon (convex_ccw: libavoid orientation, no collinear vertices): a segment through the interior
+   that does NOT meet the boundary only at polygon vertices and/or its own endpoints is blocked *)
+Theorem C03_boundary_vertices_iff P a b : convex_ccw P = true ->
+  (meets_boundary_only_at_vertices_or_ends P a b <-> no_edge_interior_hit P a b).
+Proof. exact (boundary_vertices_iff P a b). Qed.
+Print Assumptions C03_boundary_vertices_iff.
+
+Theorem C03_blocked_complete_vertices e1 e2 P :
+  convex_ccw P = true ->
+  through_interior P e1 e2 = true -> inside_strict P e1 = false -> inside_strict P e2 = false ->
+  ~ meets_boundary_only_at_vertices_or_ends P e1 e2 ->
+  blocked_by_shape e1 e2 P = true /\ blocked_by_new_shape e1 e2 P = true.
+Proof. exact (blocked_complete_vertices e1 e2 P). Qed.
+Print Assumptions C03_blocked_complete_vertices.
+
+(* which segments through the interior escape: degenerate chords with fewer than two endpoint touches *)
+Theorem C03_unblocked_char e1 e2 P :
+  through_interior P e1 e2 = true -> inside_strict P e1 = false -> inside_strict P e2 = false ->
+  (blocked_by_shape e1 e2 P = false <->
+   degenerate_chord P e1 e2 = true /\ (touch_count e1 e2 (poly_edges P) < 2)%nat).
+Proof. exact (unblocked_char e1 e2 P). Qed.
+Print Assumptions C03_unblocked_char.
+
+(* a degenerate chord CAN be blocked (two endpoint touches): "not blocked <-> misses interior \/ degenerate chord" is
+   false as an equivalence; the exact statement is C03_unblocked_char *)
+Theorem C03_degenerate_chord_can_be_blocked :
+  convex_ccw sq10 = true /\ degenerate_chord sq10 (mkpt 0 0) (mkpt 10 10) = true /\
+  touch_count (mkpt 0 0) (mkpt 10 10) (poly_edges sq10) = 2%nat /\
+  blocked_by_shape (mkpt 0 0) (mkpt 10 10) sq10 = true.
+Proof. exact diagonal_blocked. Qed.
+Print Assumptions C03_degenerate_chord_can_be_blocked.
+
+(* ---- soundness of the blocking test and the exact characterisation (Avoid/BlockingSound.v).  Polygon class: strictly
+   convex in libavoid's orientation (convex_ccw; collinear vertices are NOT allowed), pairwise distinct vertices,
+   non-empty interior - the last two are necessary (C03_blocked_sound_needs_hyps). *)
+Theorem C03_blocked_sound P e1 e2 :
+  convex_ccw P = true -> distinct_pts P -> (exists q0, strictly_inside_all_edges P q0) ->
+  blocked_by_shape e1 e2 P = true -> through_interior P e1 e2 = true.
+Proof. exact (blocked_sound P e1 e2). Qed.
+Print Assumptions C03_blocked_sound.
+
+Theorem C03_blocked_exact P e1 e2 :
+  convex_ccw P = true -> distinct_pts P -> (exists q0, strictly_inside_all_edges P q0) ->
+  inside_strict P e1 = false -> inside_strict P e2 = false ->
+  (blocked_by_shape e1 e2 P = false <->
+   through_interior P e1 e2 = false \/
+   (degenerate_chord P e1 e2 = true /\ (touch_count e1 e2 (poly_edges P) < 2)%nat)).
+Proof. exact (blocked_exact P e1 e2). Qed.
+Print Assumptions C03_blocked_exact.
+
+Theorem C03_blocked_sound_needs_hyps :
+  (convex_ccw twogon = true /\ blocked_by_shape (mkpt 5 (-5)) (mkpt 5 5) twogon = true /\
+   through_interior twogon (mkpt 5 (-5)) (mkpt 5 5) = false) /\
+  (convex_ccw dbl_tri = true /\ blocked_by_shape (mkpt 5 0) (mkpt 5 (-7)) dbl_tri = true /\
+   through_interior dbl_tri (mkpt 5 0) (mkpt 5 (-7)) = false).
+Proof. exact (conj twogon_blocked double_blocked). Qed.
+Print Assumptions C03_blocked_sound_needs_hyps.
